@@ -181,6 +181,19 @@ class FMath:
         return SymF(r)
 
     @staticmethod
+    def asin(x):
+        if not isinstance(x, SymF):
+            return _math.asin(x)
+        c = _ctx()
+        if c.branch(z3.Or(z3.fpLT(x.e, fval(-1.0)), z3.fpGT(x.e, fval(1.0)))):
+            raise ValueError("math domain error")
+        r = z3.FP(c.fresh_name("asin").replace('!', '_'), F64)
+        c.aux[str(r)] = r
+        c.add(z3.Or(z3.fpIsNaN(x.e), z3.And(z3.fpGEQ(r, fval(-_math.pi / 2)), z3.fpLEQ(r, fval(_math.pi / 2)))))
+        c.add(z3.fpIsNaN(r) == z3.fpIsNaN(x.e))
+        return SymF(r)
+
+    @staticmethod
     def sin(x):
         if not isinstance(x, SymF):
             return _math.sin(x)
@@ -188,6 +201,8 @@ class FMath:
         r = z3.FP(c.fresh_name("sin").replace('!', '_'), F64)
         c.aux[str(r)] = r
         c.add(z3.Or(z3.And(z3.fpGEQ(r, fval(-1.0)), z3.fpLEQ(r, fval(1.0))), z3.fpIsNaN(x.e), z3.fpIsInf(x.e)))
+        # on [0, pi_binary64] the sine is non-negative (pi_binary64 < pi, so even the right end-point has a positive sine)
+        c.add(z3.Implies(z3.And(z3.fpGEQ(x.e, fval(0.0)), z3.fpLEQ(x.e, fval(_math.pi))), z3.fpGEQ(r, fval(0.0))))
         return SymF(r)
 
     @staticmethod
